@@ -66,3 +66,50 @@ def uc_rows(ks: Seq[RecV], offered: Seq[RecV], n: Int) -> Seq[RecV]:
     if n <= 0:
         return []
     return uc_rows(ks, offered, n - 1) + [[count_in(offered, ks[n - 1])] + ks[n - 1]]
+
+
+# ---------------------------------------------------------------- stable sort as a permutation of indices
+@spec(opaque=True)
+def key_le(a: Key, b: Key) -> Bool:
+    return a <= b
+
+
+@spec
+def ins_idx(es: Seq[Tuple[Key, Rec]], i: Int, ps: Seq[Int]) -> Seq[Int]:
+    # insert index i into the sorted index list ps, after every index whose key is <= key(i)  (stable)
+    if len(ps) == 0:
+        return [i]
+    if key_le(es[ps[-1]][0], es[i][0]):
+        return ps + [i]
+    return ins_idx(es, i, ps[:-1]) + [ps[-1]]
+
+
+@spec
+def sort_perm(es: Seq[Tuple[Key, Rec]], n: Int) -> Seq[Int]:
+    # indices 0..n-1 ordered by non-decreasing key, ties in index (= input) order
+    if n <= 0:
+        return []
+    return ins_idx(es, n - 1, sort_perm(es, n - 1))
+
+
+@spec
+def rev_entries(xs: Seq[Tuple[Key, Rec]]) -> Seq[Tuple[Key, Rec]]:
+    if len(xs) == 0:
+        return xs
+    return [xs[-1]] + rev_entries(xs[:-1])
+
+
+@spec
+def pick(xs: Seq[RecV], ps: Seq[Int], n: Int) -> Seq[RecV]:
+    # [xs[ps[0]], ..., xs[ps[n-1]]]
+    if n <= 0:
+        return []
+    return pick(xs, ps, n - 1) + [xs[ps[n - 1]]]
+
+
+@spec
+def pick_dir(xs: Seq[RecV], ps: Seq[Int], rev: Bool, n: Int) -> Seq[RecV]:
+    # first n records of xs taken in the order ps (ascending) or in exactly the reverse of ps (descending)
+    if n <= 0:
+        return []
+    return pick_dir(xs, ps, rev, n - 1) + [xs[ps[(len(ps) - n) if rev else (n - 1)]]]
